@@ -276,6 +276,41 @@ func genC02(tier string, run int, r *simcore.Rand) *harness.Plan {
 			offers = append(offers[:pos], append([]Offer{of}, offers[pos:]...)...)
 		}
 	}
+	// removals: the store is told to forget a blob (one it was given through
+	// an upload, or one the lower layer of an overlay held from the start),
+	// and bad bytes are offered under that ref afterwards
+	if cfg.Root.Type == "overlay" && len(cfg.Root.Kids) > 0 && r.Bool(0.7) {
+		cfg.Preseed = map[string][]int{}
+		for k := r.Range(1, 3); k > 0; k-- {
+			cfg.Preseed[cfg.Root.Kids[0].Name] = append(cfg.Preseed[cfg.Root.Kids[0].Name], r.Intn(nblobs))
+		}
+	}
+	if !big && r.Bool(0.35) {
+		for k := r.Range(1, 2); k > 0; k-- {
+			bi := r.Intn(nblobs)
+			var pre []int
+			if len(cfg.Root.Kids) > 0 {
+				pre = cfg.Preseed[cfg.Root.Kids[0].Name]
+			}
+			if len(pre) > 0 && r.Bool(0.7) {
+				bi = pre[r.Intn(len(pre))]
+			}
+			pos := r.Intn(len(offers) + 1)
+			for pos < len(offers) && pos > 0 && offers[pos].G > 0 && offers[pos].G == offers[pos-1].G {
+				pos++ // not into the middle of a concurrent group
+			}
+			rm := Offer{Path: "remove", Parts: []Part{{B: bi}}, Reader: ReaderSpec{FailAt: -1}}
+			bad := offer()
+			bad.G = 0
+			if len(bad.Parts) > 0 {
+				bad.Parts[0].B, bad.Parts[0].Hash, bad.Parts[0].Bad = bi, "", ""
+				if bad.Parts[0].Mut == "" {
+					bad.Parts[0].Mut, bad.Parts[0].Arg = []string{"flip", "trunc1", "extend", "perm"}[r.Intn(4)], r.Intn(1<<16)
+				}
+			}
+			offers = append(offers[:pos], append([]Offer{rm, bad}, offers[pos:]...)...)
+		}
+	}
 	// small fragments only for small streams (every fragment is a lower-layer
 	// write, hence a scheduling point, in the file-backed stores)
 	maxAll := 0
